@@ -18,7 +18,7 @@ KICK_KINDS = ['kick', 'spin', 'displace']
 
 
 def plan(prop, tier):
-  return 96 if tier == 'quick' else 2400
+  return 96 if tier == 'quick' else 1200
 
 
 def worker_class(prop, tier, run):
